@@ -187,6 +187,34 @@ theorem alive_while_frames_arrive (T : Nat) (arrivals : List Nat) (now last : Na
 theorem expires_after_silence (T last now : Nat) (h : last + T ≤ now) : expired T last now = true := by
   simp [expired]; omega
 
+/-- the source polls its input first and re-arms the deadline on every frame -/
+theorem source_input_first : inputFirst = true := by decide
+
+/-- **a late reader does not time out**: however late the engine gets to poll its input — held up by a
+    slow write, a full queue, the scheduler — a frame that is waiting is read (and re-arms the
+    deadline); the time-out is reported only when nothing is waiting at all.  For every state and
+    every instant. -/
+theorem timeout_only_when_nothing_waits (T : Nat) (r : Reader) (now : Nat)
+    (h : (rstep inputFirst T r (.pollAt now)).2 = some .timeout) : r.waiting = 0 ∧ r.deadline ≤ now := by
+  rw [source_input_first] at h
+  simp only [rstep, poll, if_true] at h
+  by_cases hw : 0 < r.waiting
+  · simp [hw] at h
+  · by_cases hd : r.deadline ≤ now
+    · exact ⟨by omega, hd⟩
+    · simp [hw, hd] at h
+
+/-- every frame read re-arms the deadline a full time-out ahead -/
+theorem frame_rearms (T : Nat) (r : Reader) (now : Nat) (hw : 0 < r.waiting) :
+    rstep inputFirst T r (.pollAt now) = ({ waiting := r.waiting - 1, deadline := now + T }, some .frame) := by
+  rw [source_input_first]
+  simp [rstep, poll, hw]
+
+/-- the other order is wrong: with the deadline looked at first, a frame that arrived in time is lost to
+    a time-out as soon as the reader is late (this is what a seeded reordering does) -/
+theorem deadline_first_times_out_a_live_peer :
+    (rstep false 100 { waiting := 1, deadline := 100 } (.pollAt 150)).2 = some .timeout := by decide
+
 example : (run 1 Slab.empty [.alloc, .alloc, .alloc, .free 0, .alloc]).2 =
     [some (.channel 0), some (.channel 1), some .maxReached, none, some (.channel 0)] := by decide
 
